@@ -3,6 +3,7 @@
 from __future__ import annotations
 
 from .rules import raises as R
+from .rules import purity as P
 
 COMMON_ASSUMPTIONS = [
     "Python semantics on JSON-like operands as tabulated in vstatic/pymodel.py (NaN and >64-bit numbers excluded, as in the properties)",
@@ -23,7 +24,53 @@ def c07_rules():
     return [r_validate, r_rule_test]
 
 
+ALL_ROOTS = {"schema", "data", "rule", "cond", "source", "path", "part", "result"}
+
+
+def c08_rules():
+    def r_pure(ctx):
+        merged, labels = P.pure_jobs(ctx)
+        return P.mutation_rule("R-PURE/C08", [(l, merged[l]) for l in labels], ALL_ROOTS,
+                               "the read entry point was called (an argument, self, or an object reachable from them)", floor=30)
+
+    def r_escape(ctx):
+        merged, labels = P.pure_jobs(ctx)
+        return P.escape_rule("R-ESCAPE/C08", [(l, merged[l]) for l in labels], "PRIV", ALL_ROOTS, "used for casts", floor=1)
+    return [P.rule_newinit, r_pure, r_escape]
+
+
+def c16_rules():
+    def r_pure(ctx):
+        merged, labels = P.parse_jobs(ctx)
+        return P.mutation_rule("R-PURE/C16", [(l, merged[l]) for l in labels], {"spec"},
+                               "the parser was called (its spec argument or anything reachable from it)", floor=10)
+    return [r_pure]
+
+
 PROPERTIES = {
+    "C16": dict(
+        rules=c16_rules(),
+        explanation=(
+            "Ownership / mutation analysis of the ten parse entry points (ConditionLike/DataPath/ContainerValue/Rule/Schema from_spec, "
+            "from_json_like, from_part_specs, init_rules) with the spec argument as protected origin: every store / mutating call reachable "
+            "from them must target a fresh object (a copy), never the caller's spec structure or anything reachable from it. "
+            "Decides 'parsing does not change the spec' for all specs; equality of two parses then rests on C14 and on the absence of "
+            "module-level mutable state (none is written: listed in the evidence)."
+        ),
+        assumptions=COMMON_ASSUMPTIONS,
+    ),
+    "C08": dict(
+        rules=c08_rules(),
+        explanation=(
+            "Ownership / mutation analysis (abstract interpretation over origins) of every function reachable from the read entry points "
+            "(filter / test / test_all / Data.filter / Data.get / DataPath.get_data / part filters / Rule.test / Schema.validate and every "
+            "property and report method of the result classes): every attribute store, subscript store, augmented assignment and mutating "
+            "call is an obligation whose abstract target must be fresh or the private cast copy, never an argument, self or anything "
+            "reachable from them; nothing of the caller's may be stored into the private copy; __init__ never runs on an object that "
+            "__new__ short-circuited to.  For this property the structural statement is the property (closed world)."
+        ),
+        assumptions=COMMON_ASSUMPTIONS + ["callees unknown to the analyser are assumed not to mutate their arguments (counted as 'unmodelled' events in the evidence)"],
+    ),
     "C07": dict(
         rules=c07_rules(),
         explanation=(
@@ -44,6 +91,18 @@ NOT_APPLICABLE = {
 }
 
 MANIFEST_TEXT = {
+    "C16": dict(
+        level="Effect analysis: no store or mutating call reachable from any parse entry point targets the caller's spec or anything reachable from it - for every spec and every number of repeated parses. "
+              "Decides the non-mutation clause completely; 're-parsing gives an equal object' follows from it plus determinism (no global state) and C14.",
+        note="trusts the builtin effect table (pop/update/append/... mutate; dict()/list()/deepcopy copy) and the closed-world assumption",
+        technique="static ownership / mutation (effect) analysis by abstract interpretation over origin labels",
+    ),
+    "C08": dict(
+        level="Effect analysis over all read entry points: no store or mutating call reachable from them targets a pre-existing object, for every input and every call history "
+              "(absence of writes to shared objects makes results independent of history and interleaving). This is the property itself under the closed-world assumption.",
+        note="trusts the builtin effect table (which builtin methods mutate / copy), the field-type hints and the closed-world assumption; Data.extract_paths is analysed only under the internal flag values the package itself passes",
+        technique="static ownership / mutation (effect) analysis by abstract interpretation over origin labels, plus a syntactic __new__/__init__ guard rule",
+    ),
     "C07": dict(
         level="Sound-by-construction over-approximation, for all documents at once, of the exceptions that can escape Schema.validate / Rule.test "
               "because of document content: every operation on a document-derived value and every raise control-dependent on one must be under a covering handler. "
